@@ -17,6 +17,7 @@ for d in sys.argv[2:]:
     env = dict(os.environ, VERIF_REPO=WT, VP_EVIDENCE_DIR=WT + '_evidence', VP_REPLAY_DIR=WT + '_replays')
     r = subprocess.run(['/verif/check', prop, '--tier', tier], stdout=subprocess.PIPE, stderr=subprocess.STDOUT, universal_newlines=True, env=env, cwd='/verif')
     lines = [l for l in r.stdout.split('\n') if l.startswith('  ') or 'UNCONFIRMED' in l or 'ENGINE-ERROR' in l or 'INCONCLUSIVE' in l or 'MISMATCH' in l]
-    verdict = 'DETECTED' if r.returncode == 1 else ('ENGINE-FLAGGED(rc=%d)' % r.returncode if r.returncode else 'MISSED')
+    has_v = 'VIOLATION property=' in r.stdout
+    verdict = 'DETECTED' if (r.returncode == 1 and has_v) else 'CHECK-CRASHED(rc=%d)' % r.returncode if (r.returncode == 1 or 'Traceback' in r.stdout) else ('ENGINE-FLAGGED(rc=%d)' % r.returncode if r.returncode else 'MISSED')
     print(verdict, prop, d, '|', ' ;; '.join(x.strip()[:160] for x in lines[:3]), flush=True)
     sh('git -C %s checkout -- .' % WT)
